@@ -44,6 +44,9 @@ CHECKS = {
  'C08': dict(engine='E1-enum', technique='bounded-exhaustive enumeration of protocol operation sequences on decorated vs undecorated generator / async-generator / coroutine objects in lock step',
    text='114 programs (15 generator bodies as sync and async generators, 3 suspending async bodies, 6 coroutine bodies, each with unannotated and annotated returns) x every sequence of <= 3 (5 thorough) protocol operations out of 8-9 (incl. falsy sent values and throwing the stop exceptions) are executed in lock step on fresh objects from the decorated and the undecorated function, driven by hand without an event loop; results, exception class/args/cause, per-object side-effect logs, suspension logs and finalisation are compared, the inspect kind is compared (also for 12 functools.wraps wrappers whose kind differs from the wrapped function), and wrongly typed coroutine results must raise the return violation.',
    note='Bodies that yield while handling GeneratorExit are excluded as the property says; gc is disabled during a sequence.', ref='5/C08'),
+ 'C13': dict(engine='E1-enum', technique='bounded-exhaustive enumeration of class programs built three ways from one source (plain, class-decorated, member-decorated) and compared call for call',
+   text='376 (quick) class programs - every combination of <= 2 (3 thorough) members out of 11 kinds (plain/class/static methods, properties, functools.wraps closures, unannotated, @no_type_check, string hints naming function-local classes or the class itself) x base class x dataclass x module-level / function-local, and classes nested 1-3 deep with methods at every level - are built plain, with @beartype on the class statement, with beartype(C) after the fact and with @beartype on every member; outcomes of good and bad calls through instance and class, descriptor kinds, names/docs/signatures/attributes, __wrapped__, inherited members, idempotence and the identity cases (also under python -O / -OO in child interpreters) are compared.',
+   note='Equivalence is judged on outcome classes, not message text; descriptor objects may be rebuilt around identical functions on re-decoration.', ref='5/C13'),
 }
 NOT_YET = {}
 for i in range(1, 21):
